@@ -6,14 +6,15 @@ import random
 import numpy as np
 
 RULE = (
-    "part 'stats': full product of every data tuple of length <= L over the 9-value C05 "
+    "part 'stats': full product of every data tuple of length <= L (3 quick, 4 thorough) over the 9-value C05 "
     "alphabet (f8; and over 5 integers as i8) x {no weights, weights cyclic over {1,2,.5} at "
-    "two shifts} x {no second variable, second variable} x binning {binsize .1,.3,.5,1,2.5 | "
+    "two shifts} x {no second variable, second variable} (shift 2 with a second variable only among the "
+    "secondary entries) x binning {binsize .1,.3,.5,1,2.5 | "
     "nbin 1,2,3,5} x min {None,-1,.5,1} x max {None,1,2,3.7} x entry {Binner.dohist(rev=True), "
     "histogram(more=True), histogram(weights=)}; the secondary entries (dohist without rev, "
     "dohist(calc_stats=False)+calc_stats(), histogram(weights=,more=True)), the pure-python "
     "histogram engine and seed-chosen generic weights / second variable on every tuple of "
-    "length <= L-1.  part 'nperbin': every tuple of length <= LN over a 6-value alphabet x "
+    "length <= L-1.  part 'nperbin': every tuple of length <= LN (4 quick, 5 thorough) over a 6-value alphabet x "
     "nperbin 1..len+1 x mergelast x 3 limit settings x {plain, weights, second variable, both} "
     "x entry {Binner, histogram(more=True), histogram(weights=), histogram(rev=True)} (both "
     "histogram engines for length < LN).  part "
@@ -21,7 +22,7 @@ RULE = (
     "'reuse' (E2): all sequences of <= 3 dohist/calc_stats calls on ONE Binner object.  "
     "non-trivial = the case has a bin with >= 2 members, an empty bin, a datum that is not "
     "counted, (nperbin) a tie, a short/merged last bin or a datum outside the limits, "
-    "(reuse) at least two calls on the object."
+    "(reuse) every distinct object state reached (fingerprint of the whole dictionary and attributes)."
 )
 ASSUMPTIONS = [
     "reference bin membership: floor((x-min)/binsize) in float64 exactly as C05 states it, nbin = int((max-min)/binsize)+1, "
